@@ -24,25 +24,7 @@ pub fn literal_f32(v: f32) -> std::string::String {
     }
 }
 
-/// name → obligation function, for the native replayer (names equal the Kani harness names)
 #[cfg(not(kani))]
-pub fn registry() -> std::vec::Vec<(&'static str, fn(&mut crate::Replay) -> crate::R)> {
-    use crate::Replay;
-    let mut v: std::vec::Vec<(&'static str, fn(&mut Replay) -> crate::R)> = std::vec::Vec::new();
-    macro_rules! reg {
-        ($n:literal, $f:expr) => {
-            v.push(($n, $f));
-        };
-    }
-    reg!("c07_q_kernel_u8", c07::kernel::<u8, Replay>);
-    reg!("c07_q_kernel_i8", c07::kernel::<i8, Replay>);
-    reg!("c07_q_kernel_u16", c07::kernel::<u16, Replay>);
-    reg!("c07_q_kernel_i16", c07::kernel::<i16, Replay>);
-    reg!("c07_q_kernel_u32", c07::kernel::<u32, Replay>);
-    reg!("c07_q_kernel_i32", c07::kernel::<i32, Replay>);
-    reg!("c07_q_kernel_u64", c07::kernel::<u64, Replay>);
-    reg!("c07_q_kernel_i64", c07::kernel::<i64, Replay>);
-    reg!("c07_q_kernel_usize", c07::kernel::<usize, Replay>);
-    reg!("c07_q_kernel_isize", c07::kernel::<isize, Replay>);
-    v
-}
+mod registry;
+#[cfg(not(kani))]
+pub use registry::registry;
